@@ -40,7 +40,7 @@ def octabox(sub=0):
     return dict(bitmap=bitmap, diag=(0, 255, 0, 255), subs=subs)
 
 
-def s_full(version=5, glat_version=3, compress=(), rtl=False, with_collision=True, subboxes=True, glyf=True, extra_attr_glyphs=0, dense_attrs=False, line_ends=False, cmap_edges=False, pass_bits=False, bad_glyph=None):
+def s_full(version=5, glat_version=3, compress=(), rtl=False, with_collision=True, subboxes=True, glyf=True, extra_attr_glyphs=0, dense_attrs=False, line_ends=False, cmap_edges=False, pass_bits=False, bad_glyph=None, bidi_pass=False):
     names = ['notdef', 'space', 'a', 'b', 'c', 'd', 'x', 'y', 'z', 'acute', 'grave', 'pseudo', 'astral', 'lig', 'e', 'f']
     glyphs = []
     for i, n in enumerate(names):
@@ -58,6 +58,8 @@ def s_full(version=5, glat_version=3, compress=(), rtl=False, with_collision=Tru
             for k in range(34): attrs.setdefault(k, 1)
         if dense_attrs and n == 'd': attrs[33] = 9          # only the last attribute number
         g = dict(adv=adv, attrs=attrs, bbox=(0, 0 if adv else 500, 500, 700))
+        if bidi_pass and n == 'a': attrs[GA['mirror']] = G['b']                       # mirrored whenever mirroring applies
+        if bidi_pass and n == 'c': attrs[GA['mirror']] = G['d']; attrs[GA['mirror1']] = 1     # not mirrored when the segment direction has bit 2 set
         if bad_glyph == n: g['bbox'] = (100, 0, -100, 700)          # outline bounding box with xMin > xMax: this one glyph is unreadable
         if glat_version >= 3: g['octabox'] = octabox(2 if (subboxes and n in ('a', 'acute')) else (1 if subboxes and n == 'grave' else 0))
         glyphs.append(g)
@@ -100,6 +102,7 @@ def s_full(version=5, glat_version=3, compress=(), rtl=False, with_collision=Tru
                 jlevels=[(GA['jstretch'], GA['jshrink'], GA['jstep'], GA['jweight'])], iSubst=0, iPos=2, iJust=len(passes), flags=flags,
                 aPseudo=GA['pseudo'], aBreak=GA['brk'], aBidi=GA['bidi'], aMirror=GA['mirror'], aPassBits=GA['passbits'] if pass_bits else 0, numUser=2, dir=1 if rtl else 0,
                 aCollision=GA['coll'] if (with_collision and glat_version >= 3) else 0, critFeatures=[0], scriptTags=[tag('latn')], maxPre=1, maxPost=2)
+    if bidi_pass: silf['iBidi'] = len(passes)          # the loader wants iBidi >= iJust: the bidi / mirroring step comes after the last pass
     return dict(glyphs=glyphs, cmap=cm, cmap12=True, num_attrs=34, glat_version=glat_version, gloc_long=True, glyf=glyf, extra_attr_glyphs=extra_attr_glyphs, silf=silf,
                 names={256: 'Feature One', 257: 'Off', 258: 'On', 259: 'Second', 260: 'Zero', 261: 'Two', 262: 'Héllo \U00010400'},
                 names_extra={(256, 0x40C): 'Trait Un'},
@@ -173,7 +176,7 @@ def write_all(outdir):
     fonts = {'s_min': s_min(), 's_full': s_full(), 's_full_z': s_full(compress=('Silf', 'Glat')), 's_full_v3': s_full(version=3, glat_version=1, with_collision=False),
              's_full_v4': s_full(version=4, glat_version=2, with_collision=False), 's_full_rtl': s_full(rtl=True), 's_full_nosub': s_full(subboxes=False),
              's_full_zs': s_full(compress=('Silf',)), 's_full_zg': s_full(compress=('Glat',)),
-             's_full_noglyf': s_full(glyf=False), 's_full_extra': s_full(extra_attr_glyphs=3), 's_full_dense': s_full(dense_attrs=True), 's_full_le': s_full(line_ends=True), 's_full_cmapedge': s_full(cmap_edges=True), 's_full_pb': s_full(pass_bits=True), 's_full_badglyph': s_full(bad_glyph='e'), 's_full_badlast': s_full(bad_glyph='f'), 's_full_rtl_le': s_full(rtl=True, line_ends=True)}
+             's_full_noglyf': s_full(glyf=False), 's_full_extra': s_full(extra_attr_glyphs=3), 's_full_dense': s_full(dense_attrs=True), 's_full_le': s_full(line_ends=True), 's_full_cmapedge': s_full(cmap_edges=True), 's_full_pb': s_full(pass_bits=True), 's_full_bidi': s_full(bidi_pass=True), 's_full_rtl_bidi': s_full(rtl=True, bidi_pass=True), 's_full_badglyph': s_full(bad_glyph='e'), 's_full_badlast': s_full(bad_glyph='f'), 's_full_rtl_le': s_full(rtl=True, line_ends=True)}
     fonts.update(feat_family())
     index = {}
     for name, spec in fonts.items():
